@@ -210,6 +210,7 @@ K_SHARDS = [
     dict(macros=['d', 'M'], envs=[], specials=['&'], argless=['z']),
     dict(macros=['m'], envs=['e'], specials=[], argless=[]),
     dict(macros=['o'], envs=['q', 'p'], specials=['~'], argless=[]),
+    dict(macros=['A', 'S'], envs=[], specials=[], argless=['z']),
 ]
 D_SHARDS = [
     dict(macros=['textbf', 'frac'], envs=[], specials=['~'], argless=['alpha']),
